@@ -1,7 +1,551 @@
-//! C09 — not built yet.
+//! C09 — only selected rules report, and rules do not interfere.
+//! * `--dump-registry FILE`: translator; prints the registry of the freshly built code as Gallina.
+//! * group `select`: the real `get_rulepack` under a generated `rules` / `exclude_rules` config vs the
+//!   model's `select` on the dumped registry (plus a direct comparison with the declarative spec
+//!   "code, else name, else group", re-implemented here independently of the model).
+//! * group `lint`: the violations of a subset run vs the model's lint loop fed with the `rules = all` run;
+//!   direct observations: every reported code is selected, skipped rules never report,
+//!   subset run = filtered all run (monitor of H_indep).
+use std::collections::{BTreeMap, BTreeSet};
+
+use serde_json::{Value, json};
+use sqruff_lib::core::config::FluffConfig;
+use sqruff_lib::core::linter::core::Linter;
+use sqruff_lib::core::rules::base::LintPhase;
+use sqruff_lib_core::errors::SQLBaseError;
+
 use crate::common::*;
 
-pub fn main(_args: &Args) {
-    eprintln!("c09: not built yet");
-    std::process::exit(2);
+#[derive(Clone)]
+struct RuleInfo {
+    code: String,
+    name: String,
+    groups: Vec<String>,
+    skip: Vec<String>,
+    fix: bool,
+    post: bool,
+}
+
+fn registry() -> Vec<RuleInfo> {
+    sqruff_lib::rules::rules()
+        .iter()
+        .map(|r| RuleInfo {
+            code: r.code().to_string(),
+            name: r.name().to_string(),
+            groups: r.groups().iter().map(|g| g.as_ref().to_string()).collect(),
+            skip: r.dialect_skip().iter().map(|d| d.as_ref().to_string()).collect(),
+            fix: r.is_fix_compatible(),
+            post: r.lint_phase() == LintPhase::Post,
+        })
+        .collect()
+}
+
+fn g_rule(r: &RuleInfo) -> String {
+    format!(
+        "{{| r_code := {}; r_name := {}; r_groups := {}; r_skip := {}; r_fix := {}; r_post := {} |}}",
+        g_str(&r.code),
+        g_str(&r.name),
+        g_list(r.groups.iter().map(|g| g_str(g))),
+        g_list(r.skip.iter().map(|g| g_str(g))),
+        g_bool(r.fix),
+        g_bool(r.post)
+    )
+}
+
+fn config_src(dialect: &str, rules: Option<&str>, excl: Option<&str>, extra: &str) -> String {
+    let mut s = format!("[sqruff]\ndialect = {}\n", dialect);
+    if let Some(r) = rules {
+        s.push_str(&format!("rules = {}\n", r));
+    }
+    if let Some(e) = excl {
+        s.push_str(&format!("exclude_rules = {}\n", e));
+    }
+    s.push_str(extra);
+    s
+}
+
+fn mk_linter(src: &str) -> Linter {
+    Linter::new(FluffConfig::from_source(src, None), None, None, true)
+}
+
+/// codes selected by the real code, `None` when it panics (unknown reference)
+fn real_selection(src: &str) -> Option<Vec<String>> {
+    catch(|| mk_linter(src).get_rulepack().rules().iter().map(|r| r.code().to_string()).collect::<Vec<_>>()).ok()
+}
+
+// ---------------------------------------------------------------- the declarative specification, in Rust
+struct Spec {
+    reg: Vec<RuleInfo>,
+}
+impl Spec {
+    fn is_code(&self, x: &str) -> bool {
+        self.reg.iter().any(|r| r.code == x)
+    }
+    fn is_name(&self, x: &str) -> bool {
+        self.reg.iter().any(|r| r.name == x)
+    }
+    fn known(&self, x: &str) -> bool {
+        self.is_code(x) || self.is_name(x) || self.reg.iter().any(|r| r.groups.iter().any(|g| g == x))
+    }
+    fn refers(&self, x: &str, r: &RuleInfo) -> bool {
+        if self.is_code(x) {
+            r.code == x
+        } else if self.is_name(x) {
+            r.name == x
+        } else {
+            r.groups.iter().any(|g| g == x)
+        }
+    }
+    fn items(v: Option<&str>) -> Option<Vec<String>> {
+        let s = v?;
+        if s.trim().eq_ignore_ascii_case("none") {
+            return None;
+        }
+        Some(s.split(',').map(|x| x.trim().to_string()).filter(|x| !x.is_empty()).collect())
+    }
+    /// `None` = some reference is unknown (the implementation panics)
+    fn select(&self, rules: Option<&str>, excl: Option<&str>) -> Option<Vec<String>> {
+        let allow = Self::items(rules);
+        let deny = Self::items(excl).unwrap_or_default();
+        if let Some(a) = &allow {
+            if a.iter().any(|x| !self.known(x)) {
+                return None;
+            }
+        }
+        if deny.iter().any(|x| !self.known(x)) {
+            return None;
+        }
+        Some(
+            self.reg
+                .iter()
+                .filter(|r| allow.as_ref().is_none_or(|a| a.iter().any(|x| self.refers(x, r))) && !deny.iter().any(|x| self.refers(x, r)))
+                .map(|r| r.code.clone())
+                .collect(),
+        )
+    }
+}
+
+// ---------------------------------------------------------------- generators
+struct Vocab {
+    codes: Vec<String>,
+    names: Vec<String>,
+    groups: Vec<String>,
+}
+const UNKNOWN: &[&str] = &["XX99", "L001", "cp01", "Core", "ALL", "layout.nosuch", "capitalisation", "LT", "LT0", "all ", "c ore"];
+
+fn vocab(reg: &[RuleInfo]) -> Vocab {
+    let mut groups = BTreeSet::new();
+    for r in reg {
+        for g in &r.groups {
+            groups.insert(g.clone());
+        }
+    }
+    Vocab { codes: reg.iter().map(|r| r.code.clone()).collect(), names: reg.iter().map(|r| r.name.clone()).collect(), groups: groups.into_iter().collect() }
+}
+
+fn token(rng: &mut Rng, v: &Vocab, unknown_pct: usize) -> String {
+    if rng.chance(unknown_pct, 100) {
+        return UNKNOWN[rng.below(UNKNOWN.len())].trim().to_string();
+    }
+    match rng.below(10) {
+        0..=4 => rng.pick(&v.codes).clone(),
+        5..=7 => rng.pick(&v.names).clone(),
+        _ => rng.pick(&v.groups).clone(),
+    }
+}
+
+/// join tokens the way a user might write them: optional blanks, stray commas
+fn join(rng: &mut Rng, toks: &[String], messy: bool) -> String {
+    let mut s = String::new();
+    for (i, t) in toks.iter().enumerate() {
+        if i > 0 {
+            s.push(',');
+            if messy && rng.chance(1, 6) {
+                s.push_str([" ,", ",", "  , "][rng.below(3)]);
+            }
+        }
+        if messy {
+            s.push_str(["", " ", "  ", "\t"][rng.below(4)]);
+        }
+        s.push_str(t);
+        if messy {
+            s.push_str(["", " ", "\t"][rng.below(3)]);
+        }
+    }
+    if messy && rng.chance(1, 5) {
+        s.push(',');
+    }
+    s.trim().to_string()
+}
+
+#[derive(Clone)]
+struct Sel {
+    cls: &'static str,
+    rules: Option<String>,
+    excl: Option<String>,
+}
+
+fn gen_selection(rng: &mut Rng, v: &Vocab) -> Sel {
+    let k = rng.below(100);
+    let messy = rng.chance(1, 3);
+    let list = |rng: &mut Rng, lo: usize, hi: usize, unk: usize| -> String {
+        let n = rng.range(lo, hi);
+        let toks: Vec<String> = (0..n).map(|_| token(rng, v, unk)).collect();
+        join(rng, &toks, messy)
+    };
+    if k < 10 {
+        Sel { cls: "single-code", rules: Some(rng.pick(&v.codes).clone()), excl: None }
+    } else if k < 18 {
+        Sel { cls: "single-name", rules: Some(rng.pick(&v.names).clone()), excl: None }
+    } else if k < 26 {
+        Sel { cls: "single-group", rules: Some(rng.pick(&v.groups).clone()), excl: None }
+    } else if k < 46 {
+        Sel { cls: "mixed", rules: Some(list(rng, 1, 8, 0)), excl: None }
+    } else if k < 70 {
+        Sel { cls: "mixed-with-exclusions", rules: Some(list(rng, 1, 6, 0)), excl: Some(list(rng, 1, 5, 0)) }
+    } else if k < 80 {
+        let g = rng.pick(&v.groups).clone();
+        Sel { cls: "group-minus", rules: Some(g), excl: Some(list(rng, 1, 6, 0)) }
+    } else if k < 86 {
+        Sel { cls: "default-rules-with-exclusions", rules: None, excl: Some(list(rng, 1, 4, 0)) }
+    } else if k < 92 {
+        let unk_in_excl = rng.chance(1, 2);
+        if unk_in_excl {
+            Sel { cls: "unknown-reference", rules: Some(list(rng, 1, 4, 0)), excl: Some(list(rng, 1, 3, 40)) }
+        } else {
+            Sel { cls: "unknown-reference", rules: Some(list(rng, 1, 4, 40)), excl: if rng.chance(1, 2) { Some(list(rng, 1, 3, 0)) } else { None } }
+        }
+    } else if k < 96 {
+        let none = ["None", "none", "NONE"][rng.below(3)].to_string();
+        if rng.chance(1, 2) {
+            Sel { cls: "none-keyword", rules: Some(none), excl: if rng.chance(1, 2) { Some(list(rng, 1, 4, 0)) } else { None } }
+        } else {
+            Sel { cls: "none-keyword", rules: Some(list(rng, 1, 4, 0)), excl: Some(none) }
+        }
+    } else {
+        Sel { cls: "only-commas", rules: Some([",", ", ,", ",,"][rng.below(3)].to_string()), excl: None }
+    }
+}
+
+// ---------------------------------------------------------------- select cases
+fn default_rules_value() -> Option<String> {
+    let cfg = FluffConfig::from_source("[sqruff]\ndialect = ansi\n", None);
+    cfg.raw["core"]["rules"].as_string().map(|s| s.to_string())
+}
+
+fn sel_input(dialect: &str, s: &Sel, extra: &str) -> Value {
+    json!({"dialect": dialect, "rules": s.rules, "exclude_rules": s.excl, "extra_config": extra, "config": config_src(dialect, s.rules.as_deref(), s.excl.as_deref(), extra)})
+}
+
+fn run_select(spec: &Spec, default_rules: &Option<String>, s: &Sel, out: &mut Buf) {
+    let src = config_src("ansi", s.rules.as_deref(), s.excl.as_deref(), "");
+    let real = real_selection(&src);
+    let eff_rules: Option<String> = match &s.rules {
+        Some(r) => Some(r.clone()),
+        None => default_rules.clone(),
+    };
+    let want = spec.select(eff_rules.as_deref(), s.excl.as_deref());
+    let input = sel_input("ansi", s, "");
+    out.count("selections", 1);
+    match &real {
+        None => out.count("selections_rejected_unknown_reference", 1),
+        Some(v) if v.is_empty() => out.count("selections_empty", 1),
+        Some(v) => out.count("selected_rules_total", v.len()),
+    }
+    let key = format!("c09-select:{}|{}", s.rules.clone().unwrap_or("<default>".into()), s.excl.clone().unwrap_or("<unset>".into()));
+    out.direct(
+        "select-vs-spec",
+        real == want,
+        &key,
+        &format!("get_rulepack selects {:?} but the selection means {:?}", real, want),
+        input.clone(),
+    );
+    let args = g_tuple(&["rules_dump".to_string(), g_opt(eff_rules.as_ref().map(|r| g_str(r))), g_opt(s.excl.as_ref().map(|r| g_str(r)))]);
+    let exp = g_opt(real.as_ref().map(|v| g_list(v.iter().map(|c| g_str(c)))));
+    let nontrivial = real.as_ref().is_some_and(|v| !v.is_empty() && v.len() < spec.reg.len());
+    out.case("select", s.cls, nontrivial, args, exp, json!({"input": input, "selected": real}));
+}
+
+// ---------------------------------------------------------------- lint cases
+fn fnv(s: &str) -> usize {
+    let mut h: u32 = 0x811c9dc5;
+    for b in s.as_bytes() {
+        h ^= *b as u32;
+        h = h.wrapping_mul(0x01000193);
+    }
+    h as usize
+}
+type V = (Option<String>, usize, usize, usize);
+/// the unattributed error `Rule::crawl` pushes when a rule body panics (no rule code; C03's subject)
+fn is_rule_exception(v: &SQLBaseError) -> bool {
+    v.rule.is_none() && v.description.starts_with("Unexpected exception")
+}
+/// violations without the rule-exception errors, and how many of those there were
+fn viols(vs: &[SQLBaseError]) -> (Vec<V>, usize) {
+    (vs.iter().filter(|v| !is_rule_exception(v)).map(viol).collect(), vs.iter().filter(|v| is_rule_exception(v)).count())
+}
+fn viol(v: &SQLBaseError) -> V {
+    (v.rule.as_ref().map(|r| r.code.to_string()), v.line_no, v.line_pos, fnv(&v.description))
+}
+fn viol_g(v: &V) -> String {
+    g_tuple(&[g_opt(v.0.as_ref().map(|c| g_str(c))), g_tuple(&[g_n(v.1), g_n(v.2), g_n(v.3)])])
+}
+fn viol_j(v: &V) -> Value {
+    json!([v.0, v.1, v.2])
+}
+
+struct LintItem {
+    cls: &'static str,
+    dialect: String,
+    extra: &'static str,
+    sql: String,
+    sels: Vec<Sel>,
+}
+
+const FORCE: &str = "[sqruff:rules:references.from]\nforce_enable = True\n[sqruff:rules:references.consistent]\nforce_enable = True\n";
+
+fn lint_all(dialect: &str, extra: &str, sql: &str) -> Result<((Vec<V>, usize), Vec<String>), String> {
+    let src = config_src(dialect, Some("all"), None, extra);
+    catch(|| {
+        let l = mk_linter(&src);
+        let forced: Vec<String> = l.get_rulepack().rules().iter().filter(|r| r.force_enable()).map(|r| r.code().to_string()).collect();
+        let f = l.lint_string(sql, None, false);
+        (viols(&f.violations), forced)
+    })
+}
+
+fn run_lint(spec: &Spec, default_rules: &Option<String>, it: &LintItem, out: &mut Buf) {
+    out.count("files", 1);
+    let ((all_vs, n_exc), forced) = match lint_all(&it.dialect, it.extra, &it.sql) {
+        Ok(x) => x,
+        Err(msg) => {
+            out.count("all_run_panicked", 1);
+            let _ = msg;
+            return; // crashes are C03's subject
+        }
+    };
+    out.hyp("H_noexc", "diagnostic", n_exc == 0, json!({"dialect": it.dialect, "rules": "all", "sql": it.sql, "rule_exception_errors": n_exc}));
+    let by_code: BTreeMap<&str, &RuleInfo> = spec.reg.iter().map(|r| (r.code.as_str(), r)).collect();
+    let base_input = json!({"dialect": it.dialect, "extra_config": it.extra, "sql": it.sql});
+    // skipped rules never report (also in the all run)
+    let skipped: Vec<&RuleInfo> = spec.reg.iter().filter(|r| r.skip.iter().any(|d| d == &it.dialect) && !forced.contains(&r.code)).collect();
+    for r in &skipped {
+        let bad = all_vs.iter().any(|v| v.0.as_deref() == Some(r.code.as_str()));
+        out.direct(
+            "skipped-never-reports",
+            !bad,
+            &format!("c09-skip:{}:{}", r.code, it.dialect),
+            &format!("rule {} is skipped for dialect {} but reported", r.code, it.dialect),
+            json!({"dialect": it.dialect, "rules": "all", "exclude_rules": null, "extra_config": it.extra, "sql": it.sql}),
+        );
+    }
+    if !forced.is_empty() {
+        out.count("files_with_force_enable", 1);
+        if all_vs.iter().any(|v| v.0.as_ref().is_some_and(|c| forced.contains(c) && by_code[c.as_str()].skip.iter().any(|d| d == &it.dialect))) {
+            out.count("force_enabled_rule_reported_in_skipped_dialect", 1);
+        }
+    }
+    if !all_vs.is_empty() {
+        out.count("files_with_violations", 1);
+    }
+    for s in &it.sels {
+        let src = config_src(&it.dialect, s.rules.as_deref(), s.excl.as_deref(), it.extra);
+        let eff_rules: Option<String> = match &s.rules {
+            Some(r) => Some(r.clone()),
+            None => default_rules.clone(),
+        };
+        let want_sel = spec.select(eff_rules.as_deref(), s.excl.as_deref());
+        let sql = it.sql.clone();
+        let sub: Option<Vec<V>> = catch(|| {
+            let l = mk_linter(&src);
+            let _ = l.get_rulepack(); // unknown references panic here, before linting
+            viols(&l.lint_string(&sql, None, false).violations).0
+        })
+        .ok();
+        let mut input = base_input.clone();
+        input["rules"] = json!(s.rules);
+        input["exclude_rules"] = json!(s.excl);
+        input["config"] = json!(src);
+        out.count("subset_runs", 1);
+        let key_base = format!("{}:{:08x}", it.dialect, fnv(&format!("{}|{:?}|{:?}|{}", it.sql, s.rules, s.excl, it.extra)));
+        if let (Some(sub), Some(sel)) = (&sub, &want_sel) {
+            // (a) every reported rule violation belongs to a selected rule
+            let stray: Vec<&V> = sub.iter().filter(|v| v.0.as_ref().is_some_and(|c| !sel.contains(c))).collect();
+            out.direct(
+                "reported-in-selection",
+                stray.is_empty(),
+                &format!("c09-stray:{}", key_base),
+                &format!("violations of unselected rules reported: {:?}", stray.iter().map(|v| viol_j(v)).collect::<Vec<_>>()),
+                input.clone(),
+            );
+            // (b) skipped rules never report
+            let bad: Vec<&V> = sub.iter().filter(|v| v.0.as_ref().is_some_and(|c| skipped.iter().any(|r| &r.code == c))).collect();
+            out.direct("skipped-never-reports", bad.is_empty(), &format!("c09-skip-sub:{}", key_base), &format!("skipped rule reported: {:?}", bad.iter().map(|v| viol_j(v)).collect::<Vec<_>>()), input.clone());
+            // (c) subset run = filtered all run
+            let filtered: Vec<V> = all_vs.iter().filter(|v| v.0.as_ref().is_none_or(|c| sel.contains(c))).cloned().collect();
+            let ok = &filtered == sub;
+            out.hyp("H_indep", "blocking", ok, json!({"input": input, "subset_run": sub.iter().map(viol_j).collect::<Vec<_>>(), "filtered_all_run": filtered.iter().map(viol_j).collect::<Vec<_>>()}));
+            out.direct(
+                "subset-equals-filtered-all",
+                ok,
+                &format!("c09-subset:{}", key_base),
+                &format!("subset run {:?} differs from the filtered all-rules run {:?}", sub.iter().map(viol_j).collect::<Vec<_>>(), filtered.iter().map(viol_j).collect::<Vec<_>>()),
+                input.clone(),
+            );
+            if !filtered.is_empty() && filtered.len() < all_vs.len() {
+                out.count("subset_runs_proper_nonempty", 1);
+            }
+        }
+        let args = g_tuple(&[
+            "rules_dump".to_string(),
+            g_str(&it.dialect),
+            g_opt(eff_rules.as_ref().map(|r| g_str(r))),
+            g_opt(s.excl.as_ref().map(|r| g_str(r))),
+            g_list(forced.iter().map(|c| g_str(c))),
+            g_list(all_vs.iter().map(viol_g)),
+        ]);
+        let exp = g_opt(sub.as_ref().map(|v| g_list(v.iter().map(viol_g))));
+        let nontrivial = sub.as_ref().is_some_and(|v| !v.is_empty() && v.len() < all_vs.len());
+        out.case(
+            "lint",
+            it.cls,
+            nontrivial,
+            args,
+            exp,
+            json!({"input": input, "all_run": all_vs.iter().map(viol_j).collect::<Vec<_>>(), "subset_run": sub.as_ref().map(|v| v.iter().map(viol_j).collect::<Vec<_>>())}),
+        );
+    }
+}
+
+// ---------------------------------------------------------------- main
+enum Item {
+    Select(Sel),
+    Lint(LintItem),
+}
+
+pub fn main(args: &Args) {
+    silence_panics();
+    let reg = registry();
+    if let Some(path) = args.flag("--dump-registry") {
+        let keys = real_selection(&config_src("ansi", Some("None"), None, "")).unwrap_or_default();
+        let v = vocab(&reg);
+        let mut toks: Vec<String> = vec![];
+        toks.extend(v.codes.iter().cloned());
+        toks.extend(v.names.iter().cloned());
+        toks.extend(v.groups.iter().cloned());
+        let mut s = String::new();
+        s.push_str(&format!("Definition rules_dump : list rule := [\n{}\n].\n", reg.iter().map(g_rule).collect::<Vec<_>>().join(";\n")));
+        s.push_str(&format!("Definition real_keys : list str := {}.\n", g_list(keys.iter().map(|c| g_str(c)))));
+        s.push_str(&format!("Definition generator_tokens : list str := {}.\n", g_list(toks.iter().map(|c| g_str(c)))));
+        s.push_str(&format!("Definition default_rules : option str := {}.\n", g_opt(default_rules_value().map(|r| g_str(&r)))));
+        std::fs::write(&path, s).unwrap();
+        let mut out = Out::new(&args.out);
+        out.stat(json!({"registry_rules": reg.len(), "real_keys": keys.len(), "groups": v.groups}));
+        out.finish();
+        return;
+    }
+    let spec = Spec { reg: reg.clone() };
+    let v = vocab(&reg);
+    let default_rules = default_rules_value();
+    let mut out = Out::new(&args.out);
+    let mut rng = Rng::new(args.seed);
+    let mut items: Vec<Item> = vec![];
+
+    if let Some(path) = args.flag("--replay-input") {
+        let j: Value = serde_json::from_str(&std::fs::read_to_string(path).unwrap()).unwrap();
+        let j = if j.get("input").is_some() { j["input"].clone() } else { j };
+        let s = Sel { cls: "replay", rules: j["rules"].as_str().map(|s| s.to_string()), excl: j["exclude_rules"].as_str().map(|s| s.to_string()) };
+        match j.get("sql").and_then(|s| s.as_str()) {
+            Some(sql) => {
+                let extra: &'static str = if j["extra_config"].as_str().unwrap_or("").is_empty() { "" } else { FORCE };
+                items.push(Item::Lint(LintItem { cls: "replay", dialect: j["dialect"].as_str().unwrap_or("ansi").to_string(), extra, sql: sql.to_string(), sels: vec![s] }));
+            }
+            None => items.push(Item::Select(s)),
+        }
+    } else {
+        // ---- selections
+        // every single code, name and group; the documented special cases
+        for c in &v.codes {
+            items.push(Item::Select(Sel { cls: "each-code", rules: Some(c.clone()), excl: None }));
+        }
+        for c in &v.names {
+            items.push(Item::Select(Sel { cls: "each-name", rules: Some(c.clone()), excl: None }));
+        }
+        for g in &v.groups {
+            items.push(Item::Select(Sel { cls: "each-group", rules: Some(g.clone()), excl: None }));
+            items.push(Item::Select(Sel { cls: "each-group", rules: Some("all".into()), excl: Some(g.clone()) }));
+        }
+        items.push(Item::Select(Sel { cls: "default", rules: None, excl: None }));
+        items.push(Item::Select(Sel { cls: "none-keyword", rules: Some("None".into()), excl: None }));
+        let n_sel = if args.thorough() { 20000 } else { 1500 };
+        for _ in 0..n_sel {
+            items.push(Item::Select(gen_selection(&mut rng, &v)));
+        }
+        // ---- lint runs
+        let corpus = corpus();
+        let snippets = rule_snippets();
+        let (n_corpus, n_cross, n_snip, sels_per) = if args.thorough() { (corpus.len(), 600, snippets.len(), 12) } else { (90, 40, 160, 5) };
+        let mk_sels = |rng: &mut Rng, n: usize| -> Vec<Sel> {
+            let mut sels = vec![];
+            while sels.len() < n {
+                let s = gen_selection(rng, &v);
+                if s.cls == "unknown-reference" && rng.chance(3, 4) {
+                    continue;
+                }
+                sels.push(s);
+            }
+            sels
+        };
+        let mut idx: Vec<usize> = (0..corpus.len()).collect();
+        rng.shuffle(&mut idx);
+        for &i in idx.iter().take(n_corpus) {
+            let f = &corpus[i];
+            if f.text.len() > 6000 {
+                continue;
+            }
+            let sels = mk_sels(&mut rng, sels_per);
+            items.push(Item::Lint(LintItem { cls: "corpus-own-dialect", dialect: f.dialect.clone(), extra: "", sql: f.text.clone(), sels }));
+        }
+        for _ in 0..n_cross {
+            let f = &corpus[rng.below(corpus.len())];
+            if f.text.len() > 6000 {
+                continue;
+            }
+            let d = DIALECTS[rng.below(DIALECTS.len())];
+            let sels = mk_sels(&mut rng, sels_per);
+            items.push(Item::Lint(LintItem { cls: "corpus-cross-dialect", dialect: d.to_string(), extra: "", sql: f.text.clone(), sels }));
+        }
+        let mut sidx: Vec<usize> = (0..snippets.len()).collect();
+        rng.shuffle(&mut sidx);
+        for &i in sidx.iter().take(n_snip) {
+            let (_, sql) = &snippets[i];
+            let d = if rng.chance(1, 2) { "ansi" } else { DIALECTS[rng.below(DIALECTS.len())] };
+            let sels = mk_sels(&mut rng, sels_per);
+            items.push(Item::Lint(LintItem { cls: "rule-fixture-snippet", dialect: d.to_string(), extra: "", sql: sql.clone(), sels }));
+        }
+        // rules with a dialect_skip on the fixtures written for them, under every skipped dialect,
+        // with and without force_enable
+        for r in reg.iter().filter(|r| !r.skip.is_empty()) {
+            let fname = format!("{}.yml", r.code);
+            let mine: Vec<&(String, String)> = snippets.iter().filter(|(f, _)| f == &fname).collect();
+            let take = if args.thorough() { mine.len() } else { 6 };
+            for (_, sql) in mine.into_iter().take(take) {
+                for d in r.skip.iter().map(|s| s.as_str()).chain(["ansi"]) {
+                    for extra in ["", FORCE] {
+                        let sels = vec![
+                            Sel { cls: "skip-rule-only", rules: Some(r.code.clone()), excl: None },
+                            Sel { cls: "skip-rule-group", rules: Some(r.groups.last().cloned().unwrap_or("all".into())), excl: None },
+                        ];
+                        items.push(Item::Lint(LintItem { cls: "dialect-skip-fixture", dialect: d.to_string(), extra, sql: sql.clone(), sels }));
+                    }
+                }
+            }
+        }
+    }
+    par_run(&mut out, &items, || (), |_, it, buf| match it {
+        Item::Select(s) => run_select(&spec, &default_rules, s, buf),
+        Item::Lint(l) => run_lint(&spec, &default_rules, l, buf),
+    });
+    out.stat(json!({"registry_rules": reg.len(), "groups": v.groups, "rules_with_dialect_skip": reg.iter().filter(|r| !r.skip.is_empty()).map(|r| format!("{}:{}", r.code, r.skip.join("/"))).collect::<Vec<_>>()}));
+    out.finish();
 }
